@@ -30,6 +30,10 @@ class OffGrid(Exception):
 def to_grid(x, what="value") -> int:
     """Exact conversion seconds -> grid ticks.  Never rounds silently."""
     v = float(x) * GRID
+    if v != v or v in (float("inf"), float("-inf")):
+        # NaN / inf is never a grid problem of the harness: it is what the implementation produced.  A sentinel no law can produce, so that the
+        # trace is rejected by the clause that owns the field instead of the job dying (seeded change C06-g: fill-valued timings)
+        return -777777
     r = round(v)
     if abs(v - r) > 1e-6:
         raise OffGrid(f"{what}={x!r} is not on the 1/{GRID} s grid")
